@@ -16,3 +16,4 @@ PROP = {'engine': 'stack',
                'itself (limit-2 .. limit+2) is hit in most cases by construction.',
  'level_note': 'the streaming (direct invoke) response path has its own limit logic and is covered by C17',
  'technique': 'property-based testing (rapid): boundary-biased generated sizes, exact expected outcome per size'}
+PROP['rule'] += ' Round-10 addition: in the too-large error the number the message calls the maximum must be the limit (not the size of the response).'
